@@ -154,12 +154,17 @@ struct RegistryWorld : World {
 		reg.clear(); builtin_names();
 		if (early) { Entry e; e.kind = 3; e.named = false; e.size = sizeof(void *); e.traits = 0; reg[(int) early->type] = e; }
 		if (early_if) { Entry e; e.kind = 2; e.named = false; e.size = sizeof(void *); e.traits = 0; reg[early_if] = e; }
-		int used_traits = 0; std::set<int> seen_ids;
+		int used_traits = 0; std::set<int> seen_ids; std::vector<int> tmp_ids;
 		log.ev("registry");
 		auto add = [&](int kind, const std::string &nm, bool named, size_t size, uint64_t failn, bool quiet) -> int {
 			// kind 0 basic, 1 generic, 2 interface, 3 metatype; returns id or -1 (refused)
 			int id = -1; const type_traits *tr = 0; uint64_t fired = 0;
 			if (kind == 0) { Sut s(failn); id = mpt_type_basic_add(size); fired = g.fired; }
+			else if (kind == 1 && !failn && (used_traits % 3) == 1) {
+				// the C++ way the library's own example registers: the description is a temporary object
+				size_t sz = 1 + size; { Sut s; id = type_traits::add(type_traits(sz)); } size = sz; tr = 0;
+				if (id >= 0) { tmp_ids.push_back(id); st.hit("probe:cxx_temporary_traits_registered"); }
+			}
 			else if (kind == 1) { tr = g_traits_pool[used_traits % 64]; Sut s(failn); id = mpt_type_add(tr); fired = g.fired; size = tr->size; }
 			else {
 				Block nb(nm.size() + 1, 0); memcpy(nb.p, nm.c_str(), nm.size() + 1);
@@ -267,7 +272,11 @@ struct RegistryWorld : World {
 		}
 		for (int id = 0; id <= 0x1100; ++id) check_id(id, "END");
 		check_names("END");
+		// descriptions registered from temporaries are kept by the registry for the life of the process (there is no unregistering): the harness,
+		// which resets the registry between runs, gives those copies back itself
+		std::vector<const type_traits *> kept; for (int id : tmp_ids) { Sut s; kept.push_back(mpt_type_traits((type_t) id)); }
 		{ Sut s; verif_registry_reset(); }
+		for (const type_traits *k : kept) if (k && ledger_is_live(k)) { Sut s; free(const_cast<type_traits *>(k)); }
 		if (ledger_live()) fail("leak", "%zu block(s) still allocated after the registry was reset: %s", ledger_live(), ledger_describe().c_str());
 		(void) 0;
 	}
